@@ -364,11 +364,9 @@ func (rule *RuleExpression) getWorkflowCallOutputsType(call *WorkflowCall) *Obje
 		return NewMapObjectType(StringType{})
 	}
 
-	m, err := rule.localWorkflows.FindMetadata(call.Uses.Value)
-	if err != nil {
-		rule.Error(call.Uses.Pos, escapeNonPrint(err.Error()))
-		return NewMapObjectType(StringType{})
-	}
+	// Note: A problem of the called workflow file is reported where the job calling it is checked.
+	// Do not consume the one-shot error here since this job may be visited before the calling job.
+	m := rule.localWorkflows.peekMetadata(call.Uses.Value)
 	if m == nil {
 		return NewMapObjectType(StringType{})
 	}
